@@ -151,8 +151,9 @@ def _init_worker():
     _KEEP = L.manifest(_W.root)
     # warm-up: every lazy import of the code under test happens before bytecode writing may be enabled
     for f, s, a in REPS:
+        rq = _req_record(f, s, a, _HL)
         try:
-            L.serve(_W, ("%s%s\r\n" % (s, a)).encode("latin-1"))
+            L.serve(_W, L.concretise(rq["line"], rq["tail"]), tls=rq["tls"])
         except Exception:      # noqa
             pass
     L.remove_artefacts(_W.root, _KEEP)
@@ -389,8 +390,10 @@ def main(chk, replay=None):
             rejected += 1
             tr = traces[idxs[rj["index"]]]
             at = min(max(rj["at"] - 1, 0), len(tr["events"]) - 1)
-            key = "%s:%s" % (tr["id"], rj["clause"])
-            chk.violation(key, rj["clause"], tr["case"],
+            clause, _, site = rj["clause"].partition("@")
+            key = "%s:%s" % (tr["id"], clause)
+            tr["case"]["site"] = site or tr["case"].get("site", "none")     # the site the trace spec's machine reached
+            chk.violation(key, clause, tr["case"],
                           {"rejected_at_event": rj["at"], "event": tr["events"][at], "extra": tr["extras"][at],
                            "events": tr["events"] if tr["case"]["mode"] == "hist" else None})
         dr = [dict(d, id=traces[idxs[d["index"]]]["id"]) for d in tv["drift"]]
@@ -430,7 +433,9 @@ def main(chk, replay=None):
                 "one artefact in the tree before the target request (%d)"
                 % (n_req, max(r["maxhist"] for r in t["hist"]), max(r["nreps"] for r in t["hist"]), n_hist, nontrivial, nontrivial_h),
         "samples": sample, "checker_cmd": res.get("cmd", "") + " ; " + tcmd,
-        "trace_states": tstates, "phase_seconds": tm, "protocol_classes_observed": protos, "defects_in_model": sorted(defects),
+        "trace_states": tstates, "phase_seconds": tm,
+        "max_environment_operations_observed": max([e["ops"] for _t, e, _x in conns] or [0]),
+        "operations_bound": OPS_A + OPS_B * max(len(L.tree_kinds(h)) for h in ("default", "full")), "protocol_classes_observed": protos, "defects_in_model": sorted(defects),
         "history_models": evidence.get("history_models", []),
         "drift_summary": {k: {"n": len(v), "e.g.": v[:3]} for k, v in sorted(evidence.get("drift_summary", {}).items())},
         "model_states_per_pc": evidence.get("model_states_per_pc"),
@@ -497,7 +502,7 @@ def selftest():
     bad4 = json.loads(json.dumps(hgood)); bad4["id"] = "final-digest-corrupted"
     bad4["events"][-1]["digest"] = "0" * 16
     tv = tlc.validate_traces("TraceC03", "TraceC03_run.cfg", [good, bad1, bad2, hgood, bad3, bad4], extra_files=ex)
-    got = {r["trace"]["id"]: r["clause"] for r in tv["rejected"]}
+    got = {r["trace"]["id"]: r["clause"].partition("@")[0] for r in tv["rejected"]}
     print("accepted:", tv["accepted"], "rejected:", got)
     return tv["accepted"] == 2 and set(got) == {"status-line-corrupted", "unhandled-record-added", "alone-event-dropped",
                                                 "final-digest-corrupted"}
